@@ -263,7 +263,7 @@ func (m *MonC09) StepDone(f *Fleet, actor Actor) {
 		// The sync loop was released from a poll wake-up: one full loop
 		// iteration lies between two consecutive poll wake-ups.
 		retryWake := strings.HasPrefix(t.relPrev, "bucket:store") && m.storeErr[t.Node]
-		if t.relPoint == "sleep:wake" && !retryWake {
+		if t.relRaw == "sleep:wake" && !retryWake {
 			n := t.Node
 			m.pollWakes[n]++
 			if m.pollWakes[n] == 1 {
